@@ -221,6 +221,12 @@ _dbus_verif_set_second_fail_gap (int gap)
 {
   verif_second_fail_gap = gap;
 }
+
+int
+_dbus_verif_get_second_fail_gap (void)
+{
+  return verif_second_fail_gap;
+}
 #endif
 
 int
